@@ -17,6 +17,52 @@ TRUSTED_BASE = [
     "objects released by one scope exit) are flagged by the interpreter and skipped.",
 ]
 
+def doc_corpus():
+    """object-model programs outside the generators' reach whose output follows from the documented rules: (name, source, expected stdout)"""
+    AB = "class A { public constructor() -> A = default; }\nclass B extends A { public constructor() -> B { super(); } }\n"
+    O = ("class O { public constructor() -> O = default;\n  public function f(A a) -> string { return \"f(A)\"; }\n  public function f(B b) -> string { return \"f(B)\"; }\n"
+         "  public function h(int a) -> string { return \"h(int)\"; }\n  public function h(long a) -> string { return \"h(long)\"; } }\n")
+    return [
+        ("a variable keeps its declared class through null and reassignment",
+         AB + O + "function main() -> void { O o = new O(); A x = new B(); echo(o.f(x)); x = null; echo(o.f(x)); x = new B(); echo(o.f(x)); }", "f(A)\nf(A)\nf(A)\n"),
+        ("a field keeps its declared class through null and reassignment",
+         AB + O + "class W { public A x = new B(); public constructor() -> W = default;\n  public function go(O o) -> void { echo(o.f(x)); x = null; echo(o.f(x)); this.x = new B(); echo(o.f(this.x)); } }\n"
+         "function main() -> void { W w = new W(); w.go(new O()); }", "f(A)\nf(A)\nf(A)\n"),
+        ("the constructor that runs is an accessible one",
+         AB + "class K { public string tag;\n  public constructor(A a) -> K { this.tag = \"public K(A)\"; }\n  private constructor(B b) -> K { this.tag = \"private K(B)\"; }\n"
+         "  public static function own() -> K { return new K(new B()); } }\nclass K2 extends K { public constructor(B b) -> K2 { super(b); } }\n"
+         "function main() -> void { K k = new K(new B()); echo(k.tag); K2 k2 = new K2(new B()); echo(k2.tag); echo(K.own().tag); }",
+         "public K(A)\npublic K(A)\nprivate K(B)\n"),
+        ("a slot declared with a type parameter has the type argument's static type",
+         AB + O + "class G<T extends A> { public constructor() -> G<T> = default;\n  public function id(T x) -> T { return x; }\n  public function show(O o, T x) -> string { return o.f(x); } }\n"
+         "class P<T> { public constructor() -> P<T> = default;\n  public function id(T x) -> T { return x; } }\n"
+         "function main() -> void { O o = new O(); G<A> ga = new G<A>(); echo(o.f(ga.id(new B()))); echo(ga.show(o, new B()));\n"
+         "  P<long> pl = new P<long>(); echo(o.h(pl.id(1))); echo(pl.id(2147483647) + 1); }", "f(A)\nf(A)\nh(long)\n2147483648\n"),
+        ("a null in a slot of a generic type has that static type",
+         "class Box<T> { public T v; public constructor(T v) -> Box<T> { this.v = v; } }\n"
+         "class O { public Box<int> fld = null; public constructor() -> O = default;\n  public function f(Box<int> b) -> string { return \"f(Box<int>)\"; }\n"
+         "  public function f(Box<string> b) -> string { return \"f(Box<string>)\"; }\n  public function g(Box<int> b) -> string { return f(b); }\n  public function mk() -> Box<int> { return null; } }\n"
+         "function main() -> void { O o = new O(); Box<int> x = null; echo(o.f(x)); echo(o.f(o.fld)); echo(o.g(null)); echo(o.f(o.mk())); }",
+         "f(Box<int>)\nf(Box<int>)\nf(Box<int>)\nf(Box<int>)\n"),
+        ("a value being returned survives a destructor that makes calls",
+         "static class Log { public static int n = 0; public static function bump() -> void { Log.n = Log.n + 1; } }\n"
+         "class R { public constructor() -> R { } public destructor() -> void { Log.bump(); echo(\"~R\"); } }\n"
+         "function f() -> int { if (true) { R r = new R(); return 5; } return 7; }\nfunction main() -> void { int v = f(); echo(v); echo(f() + 1); echo(Log.n); }",
+         "~R\n5\n~R\n6\n2\n"),
+        ("locals die in reverse declaration order, whatever they are called",
+         "class D { public string n; public constructor(string n) -> D { this.n = n; } public destructor() -> void { echo(\"~\" + this.n); } }\n"
+         "function g() -> void { D zz = new D(\"1\"); D a = new D(\"2\"); D v8 = new D(\"3\"); D m = new D(\"4\"); echo(\"body\"); }\nfunction main() -> void { g(); echo(\"end\"); }",
+         "body\n~4\n~3\n~2\n~1\nend\n"),
+        ("a static initialiser runs once, also after the field is destroyed",
+         "class A { public string n; public constructor(string n) -> A { this.n = n; echo(\"A ctor \" + n); } public destructor() -> void { echo(\"~A \" + this.n); } }\n"
+         "static class H { public static A inst = new A(\"s\"); public static function drop() -> void { destroy inst; } public static function peek() -> boolean { return true; } }\n"
+         "function main() -> void { echo(\"main\"); H.drop(); echo(\"dropped\"); echo(H.peek()); }", "A ctor s\nmain\n~A s\ndropped\ntrue\n"),
+        ("static initialisers across classes, whatever the declaration order",
+         "class A { public static int x = B.y + 1; public constructor() -> A { } }\nclass B { public static int y = C.z * 2; public constructor() -> B { } }\n"
+         "class C { public static int z = 5; public constructor() -> C { } }\nfunction main() -> void { echo(A.x); echo(B.y); }", "11\n10\n"),
+    ]
+
+
 def run(chk):
     quick = chk.tier == "quick"
     chk.proofs()
@@ -31,6 +77,13 @@ def run(chk):
         src, fns, classes = gengen.gen(rng)
         progs.append((fns, classes, src))
     recs, counts = lc.differential(chk, progs, "c08")
+    dc = doc_corpus()
+    dres = lc.run_impl([x[1] for x in dc])
+    for (name, src, want), r in zip(dc, dres):
+        if r.get("status") != "ok" or r.get("stdout") != want:
+            chk.report("c08-documented", {"case": name, "source": src, "expected_output": want,
+                                          "implementation": {k: r.get(k) for k in ("status", "cat", "msg", "stdout")}, "how": "run /repo's bloch on the source"},
+                       "%s: expected %r, got %s %r" % (name, want, r.get("status"), (r.get("msg") or r.get("stdout") or "")[:120]))
     agree = [r for r in recs if r["verdict"] == "agree"]
     feats = {"overrides": 0, "super_calls": 0, "overloads": 0, "dtors": 0, "depth3": 0, "statics": 0}
     for r in agree:
